@@ -131,29 +131,34 @@ fn gen_mat4(ch: &mut Chooser, extent: f32) -> Matrix4<f32> {
     if ch.choose("m4_identity", 3) == 0 {
         return Matrix4::identity();
     }
-    let s = *ch.pick("m4_scale", &[1.0f32, 0.5, 2.0, 1.25, 0.8, 1.6]);
-    let axis = match ch.choose("m4_axis", 4) {
-        0 => Vector3::z(),
-        1 => Vector3::x(),
-        2 => Vector3::y(),
-        _ => Vector3::new(1.0, 1.0, 1.0).normalize(),
-    };
-    let th = ch.float_sym("m4_rot", std::f32::consts::PI, 12);
-    let mut m = Matrix4::from_axis_angle(
-        &nalgebra::Unit::new_normalize(axis),
-        th,
-    );
-    m *= Matrix4::new_scaling(s);
-    if ch.odds("m4_aniso", 1, 4) {
-        m *= Matrix4::new_nonuniform_scaling(&Vector3::new(1.0, 0.7, 1.3));
+    // independent ingredients (see e3::gen_transform)
+    let mut m = Matrix4::identity();
+    if ch.flag("m4_has_rot") {
+        let axis = match ch.choose("m4_axis", 4) {
+            0 => Vector3::z(),
+            1 => Vector3::x(),
+            2 => Vector3::y(),
+            _ => Vector3::new(1.0, 1.0, 1.0).normalize(),
+        };
+        let th = ch.float_sym("m4_rot", std::f32::consts::PI, 12);
+        m = Matrix4::from_axis_angle(&nalgebra::Unit::new_normalize(axis), th);
     }
-    let t = Vector3::new(
-        ch.float_sym("m4_t", 0.5, 5),
-        ch.float_sym("m4_t", 0.5, 5),
-        ch.float_sym("m4_t", 0.5, 5),
-    );
-    m = Matrix4::new_translation(&t) * m;
-    if ch.odds("m4_persp", 1, 8) {
+    if ch.flag("m4_has_scale") {
+        let s = *ch.pick("m4_scale", &[1.0f32, 0.5, 2.0, 1.25, 0.8, 1.6]);
+        m *= Matrix4::new_scaling(s);
+        if ch.odds("m4_aniso", 1, 3) {
+            m *= Matrix4::new_nonuniform_scaling(&Vector3::new(1.0, 0.7, 1.3));
+        }
+    }
+    if ch.flag("m4_has_translation") {
+        let t = Vector3::new(
+            ch.float_sym("m4_t", 0.5, 5),
+            ch.float_sym("m4_t", 0.5, 5),
+            ch.float_sym("m4_t", 0.5, 5),
+        );
+        m = Matrix4::new_translation(&t) * m;
+    }
+    if ch.odds("m4_persp", 1, 6) {
         // keep the homogeneous divisor within [0.6, 1.4] over the grid
         m[(3, 2)] = ch.float_sym("m4_persp_v", 0.4 / extent, 4);
     }
